@@ -507,7 +507,8 @@ def native_run(scratch_repo, tests, timeout):
             if verdict != 'ok':
                 sm = re.search(r'---- ' + re.escape(full) + r' stdout ----\n(.*?)(?=\n---- |\nfailures:|\Z)', so, flags=re.S)
                 msg = (sm.group(1) if sm else so[-1500:])[:3000]
-            out[t['name']] = dict(status='discharged' if verdict == 'ok' else 'refuted', message=msg, cases=cases, nontrivial=nontrivial, time_s=round(wall, 1), cmd=' '.join(cmd), test=full)
+            samples = [m2.group(1)[:400] for m2 in re.finditer(r'VERIF-NATIVE-SAMPLE ' + re.escape(t['name']) + r' (.*)', so)][:4]
+            out[t['name']] = dict(status='discharged' if verdict == 'ok' else 'refuted', message=msg, cases=cases, nontrivial=nontrivial, samples=samples, time_s=round(wall, 1), cmd=' '.join(cmd), test=full)
     return out
 
 
@@ -659,7 +660,7 @@ def main():
                     oid = f"native:{t['name']}"
                     functions_under_contract.append(dict(engine='native-bounded', file=t['file'], function=t['fn'], harness=t['name'], complete=False, bound=t['bound']))
                     if r['status'] == 'discharged':
-                        discharged.append(dict(id=oid, engine='native', complete=False, bound=t['bound'], checks=max(1, r['cases']), covers=1, nontrivial=r.get('nontrivial', 1),
+                        discharged.append(dict(id=oid, engine='native', complete=False, bound=t['bound'], checks=max(1, r['cases']), covers=1, nontrivial=r.get('nontrivial', 1), samples=r.get('samples', []),
                                                time_s=r['time_s'], contract=t['obligation']))
                         if r.get('cmd') and r['cmd'] not in checker_cmds:
                             checker_cmds.append(r['cmd'])
@@ -789,8 +790,9 @@ def main():
         solver_time_s=round(solver_s, 2),
         obligation_times_s={d['id']: d.get('time_s') for d in discharged if d.get('time_s') is not None},
         trusted_base=registry.TRUSTED_BASE + pinfo.get('trusted', []),
-        samples=[dict(obligation=d['id'], engine=d['engine'], contract=d.get('contract', d.get('kind')), complete=d.get('complete'), bound=d.get('bound', ''))
-                 for d in (discharged[:6] + discharged[-2:])] or [dict(note='no obligation discharged in this run')],
+        samples=([dict(obligation=d['id'], engine=d['engine'], contract=d.get('contract', d.get('kind')), complete=d.get('complete'), bound=d.get('bound', ''))
+                  for d in (discharged[:6] + discharged[-2:])]
+                 + [dict(obligation=d['id'], enumerated_input=x) for d in discharged for x in d.get('samples', [])][:12]) or [dict(note='no obligation discharged in this run')],
         evaluations=sum(d.get('checks', 1) for d in discharged),
         distinct_nontrivial=sum(d.get('nontrivial', 1) for d in discharged if d.get('engine') == 'verus' or d.get('covers', 0) > 0),
         rule='one case = one discharged obligation unit (a Verus function/lemma query, or a Kani harness = contract of one real function over its full symbolic domain); '
